@@ -258,6 +258,49 @@ func tableHasDuplicate(input []byte, field string) bool {
 	return errors.As(err, &de)
 }
 
+// tableKeys: the party identifiers that the ENCODED table names (nil if the table cannot be read leniently).
+// A party that the encoding names must be in the restored table: a slot whose value cannot be
+// restored (null, undefined, damaged) is a reason to refuse the material, not to drop the party.
+func tableKeys(input []byte, field string) []string {
+	var top map[string]cbor.RawMessage
+	if lenientDec.Unmarshal(input, &top) != nil {
+		return nil
+	}
+	raw, ok := top[field]
+	if !ok || len(raw) == 0 {
+		return nil
+	}
+	if raw[0]>>5 == 2 { // byte string wrapper
+		var bs []byte
+		if lenientDec.Unmarshal(raw, &bs) != nil {
+			return nil
+		}
+		raw = bs
+	}
+	if len(raw) == 0 || raw[0]>>5 != 5 {
+		return nil
+	}
+	var v map[string]cbor.RawMessage
+	if lenientDec.Unmarshal(raw, &v) != nil {
+		return nil
+	}
+	var keys []string
+	for k := range v {
+		keys = append(keys, k)
+	}
+	sort.Strings(keys)
+	return keys
+}
+
+func missingFromTable(r *ruleset, input []byte, field string, has func(string) bool) {
+	for _, k := range tableKeys(input, field) {
+		if !has(k) {
+			r.add("a party named in the encoded table " + field + " is missing from the restored table")
+			return
+		}
+	}
+}
+
 // listHasDuplicate: the same for cmp.Config's array of per-party maps with an "ID" field.
 func listHasDuplicate(input []byte, field string) bool {
 	var top map[string]cbor.RawMessage
